@@ -145,7 +145,7 @@ var c18OddNames = []string{
 }
 
 func c18Profiles() []string {
-	return []string{"small files", "chunk boundaries", "deep nesting", "many siblings", "odd names", "symbolic links", "empty directories", "duplicate contents", "mixed", "sharded directory", "multi-level file"}
+	return []string{"small files", "chunk boundaries", "deep nesting", "many siblings", "odd names", "symbolic links", "empty directories", "duplicate contents", "mixed", "sharded directory", "multi-level file", "long names"}
 }
 
 // c18Tree draws the source tree of a profile; the root's name is the source's base name.
@@ -227,6 +227,14 @@ func c18Tree(profile string, seed int64, thorough bool) *tNode {
 				root.add(tFile(nm, small(), r.Int63()))
 			}
 		}
+	case "long names":
+		// names up to NAME_MAX (255 bytes): whatever the tool appends to a name while extracting must still fit
+		for _, n := range []int{200, 247, 248, 250, 255} {
+			root.add(tFile(strings.Repeat(string(rune('a'+n%26)), n), small(), r.Int63()))
+		}
+		root.add(tFile(strings.Repeat("日", 85), 3, r.Int63()))
+		root.add(tDir(strings.Repeat("d", 255), tFile(strings.Repeat("e", 255), 9, r.Int63())))
+		root.add(tLink(strings.Repeat("l", 255), strings.Repeat("a", 200)))
 	case "symbolic links":
 		root.add(tFile("target.txt", 33, r.Int63()))
 		root.add(tDir("dir", tFile("inner.txt", 5, r.Int63()), tLink("back", "../target.txt"), tLink("updir", "..")))
@@ -519,11 +527,17 @@ func runC18(t *mon.T, raw json.RawMessage) {
 
 	// ---- car extract, twice
 	allEqual := true
-	for i, mode := range []string{"-f", "stdin (pipe)", "stdin (file)"} {
+	for i, mode := range []string{"-f", "stdin (pipe)", "stdin (file)", "-f (output directory below a symlinked directory)"} {
 		out := filepath.Join(T, fmt.Sprintf("out-%d", i))
 		must(os.Mkdir(out, 0o755))
 		var er carRun
 		switch mode {
+		case "-f (output directory below a symlinked directory)":
+			// the user names the output directory through a symlinked ancestor (a mount point alias)
+			must(os.Symlink(filepath.Base(out), out+"-alias"))
+			must(os.Mkdir(filepath.Join(out, "o"), 0o755))
+			er = runCar(T, nil, 4*time.Minute, "extract", "-f", carPath, filepath.Join(out+"-alias", "o"))
+			out = filepath.Join(out, "o")
 		case "-f":
 			er = runCar(T, nil, 4*time.Minute, "extract", "-f", carPath, out)
 		case "stdin (pipe)": // car create … && cat x.car | car extract out
@@ -674,7 +688,7 @@ func init() {
 		MinCover: map[string]int{
 			"create:wrap": 40, "create:no-wrap": 40, "create:several": 15, "create:dot": 15, "create:version-1": 60, "create:version-2": 60,
 			"archive:carv1": 60, "archive:carv2": 60, "root-agrees": 150,
-			"extract:-f": 150, "extract:stdin (pipe)": 150, "extract:stdin (file)": 150,
+			"extract:-f": 150, "extract:-f (output directory below a symlinked directory)": 150, "extract:stdin (pipe)": 150, "extract:stdin (file)": 150,
 			"tree-reproduced:-f": 100, "tree-reproduced:stdin (pipe)": 50, "tree-reproduced:stdin (file)": 100,
 			"trees-with:empty-files": 10, "trees-with:multi-chunk-files": 10, "trees-with:empty-dirs": 10, "trees-with:sharded-dirs": 4,
 			"trees-with:symlink": 20, "trees-with:non-ascii-names": 10, "trees-with:depth>=15": 10, "trees-with:>=100-entries": 10,
